@@ -249,12 +249,24 @@ void string_part() {
     sample("string d=/a//b.c/ with n in {a, b.c, ., .., 'x y', e-acute}");
 }
 
+// "empty and large files": directory totals beyond 2^31 and 2^32 bytes, made of sparse files (they cost no memory on tmpfs)
+void big_totals(const std::string &scratch) {
+    std::string root = scratch + "/big"; fs::remove_all(root); fs::create_directories(root + "/media/raw");
+    auto sparse = [](const std::string &p, uintmax_t n) { { std::ofstream o(p, std::ios::binary); } fs::resize_file(p, n); };
+    sparse(root + "/media/raw/a.bin", 3ULL << 30); sparse(root + "/media/raw/b.bin", 2ULL << 30); sparse(root + "/media/c.bin", (1ULL << 31) - 1); sparse(root + "/small.txt", 10);
+    fs::current_path(root);
+    for (const std::string &s : {root, root + "/media", root + "/media/raw", root + "/media/raw/a.bin", root + "/media/c.bin", std::string("media"), std::string("media/raw/")}) { mark("bigtotals " + s); check_path(s); shm->evaluations++; shm->nontrivial++; }
+    fs::current_path(scratch);
+    fs::remove_all(root);
+}
+
 void explore() {
     int maxn = thorough() ? 5 : 4;
     std::string scratch = fmt("/dev/shm/tulz-verif-path-%d", (int)getpid());
     fs::remove_all(scratch); fs::create_directories(scratch);
     std::vector<std::function<void()>> tasks;
     tasks.push_back([] { string_part(); });
+    tasks.push_back([=] { big_totals(scratch); });
     tasks.push_back([=] {
         std::vector<size_t> lens = {64, 100, 200, 254, 255, 256, 257, 300, 511, 512, 513, 1000, 1023, 1024, 1025, 2047, 2048, 2049, 3000, 4000, 4083, 4084, 4085};   // every absolute path the oracle uses (cwd + "/sub/g") must stay below PATH_MAX
         if (thorough()) for (size_t l = 60; l <= 4085; l += 1) lens.push_back(l);
@@ -292,7 +304,8 @@ void explore() {
 void replay(const std::string &hist) {
     std::string scratch = fmt("/dev/shm/tulz-verif-path-replay-%d", (int)getpid());
     fs::remove_all(scratch); fs::create_directories(scratch);
-    if (hist.compare(0, 5, "tree@") == 0) { size_t sp = hist.find(' '); g_name_offset = atoi(hist.c_str() + 5); Forest f; size_t i = 0; std::string body = hist.substr(sp + 1); if (!dec(body, i, f)) violation("replay:parse", "cannot parse " + hist); else run_tree(f, scratch); g_name_offset = 0; }
+    if (hist.compare(0, 10, "bigtotals ") == 0) { big_totals(scratch); }
+    else if (hist.compare(0, 5, "tree@") == 0) { size_t sp = hist.find(' '); g_name_offset = atoi(hist.c_str() + 5); Forest f; size_t i = 0; std::string body = hist.substr(sp + 1); if (!dec(body, i, f)) violation("replay:parse", "cannot parse " + hist); else run_tree(f, scratch); g_name_offset = 0; }
     else if (hist.compare(0, 5, "tree ") == 0) { Forest f; size_t i = 0; std::string body = hist.substr(5); if (!dec(body, i, f)) violation("replay:parse", "cannot parse " + hist); else run_tree(f, scratch); }
     else if (hist.compare(0, 8, "deepcwd ") == 0) deep_cwd((size_t)atol(hist.c_str() + 8), scratch);
     else string_part();
